@@ -130,7 +130,7 @@ def content(kind, cfg, cc):
     if dt == "float32":
         v = v * 0.25
     elif dt in ("uint32", "uint64") and kind != "ramp":
-        v = v + (np.iinfo(dt).max - 1000)
+        v = v.astype(dt) + np.dtype(dt).type(np.iinfo(dt).max - 1000)
     want = np.ascontiguousarray(v.astype(dt))
     assert want.shape == (nch, Z, Y, X)
     arr = want
